@@ -289,3 +289,61 @@ V(id='c05-hash-fastpath-unreduced', prop='C05', file='mpmath/libmp/libmpf.py',
   old="        h = sman % HASH_MODULUS\n",
   new="        if sexp >= 0 and sbc + sexp <= HASH_BITS:\n            h = int(sman) << sexp\n            if ssign: h = -h\n            return h\n        h = sman % HASH_MODULUS\n",
   expect='fire:G-R1:mpf_hash')
+
+# ---------------------------------------------------------------- C10 -------
+V(id='c10-mod-early-return', prop='C10', file='mpmath/libmp/libmpf.py',
+  old="        return mpf_pos(s, prec, rnd)\n    # Another important special case",
+  new="        return s\n    # Another important special case",
+  expect='fire:B-R1:mpf_mod')
+V(id='c10-add-zero-branch', prop='C10', file='mpmath/libmp/libmpf.py',
+  old="    if sman:\n        return normalize1(ssign, sman, sexp, sbc, prec or sbc, rnd)\n    return s",
+  new="    return s",
+  expect='fire:B-R1:mpf_add')
+V(id='c10-powint-n1', prop='C10', file='mpmath/libmp/libmpf.py',
+  old="    if n == 1: return mpf_pos(s, prec, rnd)", new="    if n == 1: return s",
+  expect='fire:B-R1:mpf_pow_int')
+V(id='c10-conjugate-passthrough', prop='C10', file='mpmath/libmp/libmpc.py',
+  old="    return mpf_pos(re, prec, rnd), mpf_neg(im, prec, rnd)", new="    return re, mpf_neg(im, prec, rnd)",
+  expect='fire:B-R1:mpc_conjugate')
+V(id='c10-atanh-guard-bits', prop='C10', file='mpmath/libmp/libmpc.py',
+  old="        v = (fzero, v[1])\n    return mpc_pos(v, prec, rnd)", new="        v = (fzero, v[1])\n    return v",
+  expect='fire:B-R1:mpc_atanh')
+V(id='c10-psi0-wp', prop='C10', file='mpmath/libmp/gammazeta.py',
+  old="    return from_man_exp(s, -wp, prec, rnd)\n\ndef mpc_psi0", new="    return from_man_exp(s, -wp, wp, rnd)\n\ndef mpc_psi0",
+  expect='fire:B-R1:mpf_psi0')
+V(id='c10-bernoulli-fresh', prop='C10', file='mpmath/libmp/gammazeta.py',
+  old="    if not rnd:\n        return numbers[n]\n    return mpf_pos(numbers[n], prec, rnd)\n\ndef mpf_bernoulli_huge",
+  new="    return numbers[n]\n\ndef mpf_bernoulli_huge",
+  expect='fire:B-R1:mpf_bernoulli')
+V(id='c10-exp-exact-small', prop='C10', file='mpmath/libmp/libelefun.py',
+  old="        if mag < -wp:\n            return mpf_perturb(fone, sign, prec, rnd)\n        # |x| >= 2",
+  new="        if mag < -wp:\n            return mpf_add(fone, x)\n        # |x| >= 2",
+  expect='fire:B-R1:mpf_exp')
+V(id='c10-operator-no-prec', prop='C10', file='mpmath/ctx_mp_python.py',
+  old="        v._mpf_ = mpf_neg(s._mpf_, prec, rounding)", new="        v._mpf_ = mpf_neg(s._mpf_)",
+  expect='fire:B-R1:__neg__')
+V(id='c10-mpf-new-skips-rounding', prop='C10', file='mpmath/ctx_mp_python.py',
+  old="            if (not man) and exp:\n                return val\n            v = new(cls)\n            v._mpf_ = normalize(sign, man, exp, bc, prec, rounding)",
+  new="            if (not man) and exp:\n                return val\n            v = new(cls)\n            v._mpf_ = val._mpf_",
+  expect='fire:B-R1:__new__')
+V(id='c10-wrapper-ignores-prec', prop='C10', file='mpmath/ctx_mp_python.py',
+  old="                    return ctx.make_mpf(mpf_f(x._mpf_, prec, rounding))",
+  new="                    return ctx.make_mpf(mpf_f(x._mpf_, prec + 10, rounding))",
+  expect='fire:B-R1t:_wrap_libmp_function')
+V(id='c10-parse-prec-exact-in', prop='C10', file='mpmath/ctx_mp.py',
+  old="            if kwargs.get('exact'):", new="            if 'exact' in kwargs:",
+  expect='fire:B-R1t:_parse_prec')
+V(id='c10-specfun-no-plus', prop='C10', file='mpmath/ctx_mp_python.py',
+  old="                return +retval\n        else:\n            f_wrapped = f\n        f_wrapped.__doc__",
+  new="                return retval\n        else:\n            f_wrapped = f\n        f_wrapped.__doc__",
+  expect='fire:A-R5:f_wrapped')
+V(id='c10-fsum-exact', prop='C10', file='mpmath/ctx_mp_python.py',
+  old="        s = mpf_sum(real, prec, rnd, absolute)", new="        s = mpf_sum(real, 0, rnd, absolute)",
+  expect='fire:B-R1:fsum')
+V(id='c10-benign-extra-rounding', prop='C10', file='mpmath/libmp/libmpc.py',
+  old="def mpc_pos(z, prec, rnd=round_fast):\n    a, b = z\n    return mpf_pos(a, prec, rnd), mpf_pos(b, prec, rnd)",
+  new="def mpc_pos(z, prec, rnd=round_fast):\n    re, im = z\n    x = mpf_pos(re, prec, rnd)\n    y = mpf_pos(im, prec, rnd)\n    return x, y",
+  expect='silent')
+V(id='c10-benign-lower-intermediate', prop='C10', file='mpmath/libmp/libmpc.py',
+  old="    wp = prec + 15\n    a = mpc_add(z, mpc_one, wp)", new="    wp = prec + 17\n    a = mpc_add(z, mpc_one, wp)",
+  expect='silent')
